@@ -214,7 +214,9 @@ def add_clustering(case, rnd):
     profile = c['problem']['fleet']['profiles'][0]['name']
     serving = rnd.choice([{'type': 'original', 'parking': 0.0}, {'type': 'original', 'parking': 5.0}, {'type': 'fixed', 'value': 10.0, 'parking': 5.0},
                           {'type': 'multiplier', 'value': 0.5, 'parking': 0.0}])
-    threshold = {'duration': float(rnd.choice([15, 40, 120])), 'distance': float(rnd.choice([150, 400, 1200]))}
+    # (the reader hands `distance` to the moving-duration limit and `duration` to the moving-distance limit - clustering_reader.rs,
+    # outside the listed properties - so small `duration` values cluster co-located jobs only; larger ones are in the palette too)
+    threshold = {'duration': float(rnd.choice([15, 40, 120, 600, 1500])), 'distance': float(rnd.choice([150, 400, 1200]))}
     if rnd.random() < 0.5:
         threshold['maxJobsPerCluster'] = rnd.choice([2, 3])
     c['problem']['plan']['clustering'] = {'type': 'vicinity', 'profile': {'matrix': profile}, 'threshold': threshold,
